@@ -1617,6 +1617,13 @@ class ContractionTree:
 
         # make sure all flops and size information has been populated
         tree.contract_stats()
+        # ... including the legs and involved indices, which nodes created
+        # with precomputed information (e.g. by simulated annealing) might not
+        # have cached yet, and which can't be derived correctly any more once
+        # the index or the children have been updated below
+        for node in tree.children:
+            tree.get_legs(node)
+            tree.get_involved(node)
 
         d = tree.size_dict[ind]
         if project is None:
